@@ -19,6 +19,7 @@ func init() {
 		Assumptions: []string{"select chooses a ready case", "context.WithTimeout cancels at the deadline"},
 		Run:         runC09,
 		Controls: []Control{
+			{Name: "backpressure-on-by-default", File: "pkg/resource/opt.go", Old: "\trr := &ReadRequest{}\n", New: "\trr := &ReadRequest{Backpressure: true}\n", Expect: "R09.10"},
 			{Name: "timeout-tested-as-canceled", File: "pkg/resource/value.go", Old: "\tif errors.Is(ctx.Err(), context.DeadlineExceeded) {\n\t\treturn nil, errors.New(\"bus.Send blocked for too long\")\n", New: "\tif errors.Is(ctx.Err(), context.Canceled) {\n\t\treturn nil, errors.New(\"bus.Send blocked for too long\")\n", Expect: "R09.4"},
 			{Name: "derived-request-drops-backpressure", File: "pkg/resource/collection.go", Old: "func (c *Collection) onUpdate(", New: "func derivedRequestForControl(rr *ReadRequest) *ReadRequest {\n\treturn &ReadRequest{ReadMask: rr.ReadMask, Include: rr.Include}\n}\n\nfunc (c *Collection) onUpdate(", Expect: "R09.8"},
 			{Name: "add-remove-delivered", File: "pkg/resource/backpressure.go", Old: "\t\tcase types.ChangeType_REMOVE:\n\t\t\treturn CollectionChange{}, false", New: "\t\tcase types.ChangeType_REMOVE:\n\t\t\treturn b, true", Expect: "R09.1"},
@@ -37,6 +38,8 @@ func init() {
 }
 
 func runC09(c *an.Ctx) {
+	r108(c, "R09.10") // lossy delivery is the default: nothing switches backpressure on for the caller (shared with R10.8)
+	c.Min("R09.10", 1)
 	r091(c)
 	r092(c)
 	r093(c, "R09.3")
